@@ -16,8 +16,12 @@
 //!                             container produced by the writer for the spec in the remaining args; obs = the
 //!                             header fields the file really carries (model: NV.CramRec.Container)
 //!   mates names refs recs     one slice through set_mates/write_mate and read_mate/resolve_mates: obs = the
-//!                             FLAG/RNEXT/PNEXT/TLEN columns read back (model: NV.CramRec.Mates), see
-//!                             shared/c07_mates.rs
+//!                             FLAG/RNEXT/PNEXT/TLEN columns read back and the CF/NF series of the file
+//!                             (model: NV.CramRec.Mates), see shared/c07_mates.rs
+//!   shdr rps lns refs recs    a stream of records through the real writer: obs = reference context, record count,
+//!                             record counter (and embedded-reference id, MD5 flag) of every container header and
+//!                             slice header as read by the independent walker (model: NV.CramRec.SliceHeader),
+//!                             see shared/c07_shdr.rs
 
 use std::{collections::HashMap, io::Read as _, panic::AssertUnwindSafe};
 
@@ -1283,11 +1287,18 @@ mod cgen;
 #[path = "../shared/c07_mates.rs"]
 mod mates;
 
+#[path = "../shared/c07_shdr.rs"]
+mod shdr;
+
 fn generate(rng: &mut Rng, tier: &str, w: &mut CaseWriter) {
     cgen::generate(rng, tier, w);
     let n_mates = if tier == "thorough" { 15000 } else { 700 };
     for _ in 0..n_mates {
         mates::push_mates(rng, w);
+    }
+    let n_shdr = if tier == "thorough" { 12000 } else { 600 };
+    for _ in 0..n_shdr {
+        shdr::push_shdr(rng, w);
     }
 }
 
@@ -1297,6 +1308,7 @@ fn run(c: &Case) -> Obs {
         "feat" => run_feat(c),
         "cont" => run_cont(c),
         "mates" => mates::run_mates(c),
+        "shdr" => shdr::run_shdr(c),
         k => Obs::fail("-", "harness-unknown-kind", k),
     }
 }
